@@ -108,6 +108,15 @@ pub fn renderer_sweep(d: &Data) -> Vec<Call> {
             v.push(run_call(vec![format!("[] > {m}")], vec![c.clone()]));
         }
     }
+    // the same toggles rendered through a `+` romaniser: that path asks for the *nearest*
+    // cardinal (Segment::get_nearest_grapheme), a second place where ties are broken
+    for m in &mods {
+        for chunk in d.cardinals.chunks(4) {
+            let mut c = run_call(vec![format!("[] > {m}")], chunk.to_vec());
+            c.from = vec!["C => +@{acute}".to_string(), "V => +@{grave}".to_string()];
+            v.push(c);
+        }
+    }
     v
 }
 
@@ -123,7 +132,26 @@ pub fn gen_segment(d: &Data, r: &mut Rng) -> String {
     s
 }
 
+const DENSE: [&str; 16] = ["p", "t", "k", "b", "d", "ɡ", "s", "z", "m", "n", "l", "r", "a", "i", "u", "e"];
+
+/// short words over a small inventory: rules match often, and often run off the end of the word
+pub fn dense_word(r: &mut Rng) -> String {
+    let n = r.range(1, 4);
+    let mut w = String::new();
+    for i in 0..n {
+        if i > 0 && r.chance(1, 5) {
+            w.push('.');
+        }
+        let seg: &str = *r.pick(&DENSE[..]);
+        w.push_str(seg);
+    }
+    w
+}
+
 pub fn gen_word(d: &Data, r: &mut Rng) -> String {
+    if r.chance(1, 4) {
+        return dense_word(r);
+    }
     match r.below(10) {
         0..=2 => r.pick(&d.test_words).clone(),
         3 => r.pick(&d.test_words).clone(),
@@ -182,6 +210,19 @@ fn gen_alpha_matrix(r: &mut Rng) -> (String, String) {
     }
 }
 
+/// a two-item input sharing an alpha between its items (bindings made by the first item are
+/// used by the second, and by the output)
+fn gen_alpha_sequence(r: &mut Rng) -> String {
+    let f = *r.pick(&["voice", "cont", "nas", "son", "hi", "round", "back", "sg"]);
+    let base = *r.pick(&["-son", "+cons", "-syll", "+syll", "-cont"]);
+    match r.below(4) {
+        0 => format!("[{base}, -A{f}] [{base}, A{f}] > [A{f}] []"),
+        1 => format!("[{base}, A{f}] [{base}, -A{f}] > [] [A{f}]"),
+        2 => format!("[A{f}] [{base}] > [-A{f}] [A{f}]"),
+        _ => format!("[{base}, A{f}] [B{f}] > [B{f}] [A{f}]"),
+    }
+}
+
 pub fn gen_elem(d: &Data, r: &mut Rng) -> String {
     match r.below(10) {
         0..=3 => gen_segment(d, r),
@@ -227,7 +268,13 @@ pub fn gen_rule(d: &Data, r: &mut Rng) -> String {
         }
         12 => format!("{}=1 > 1{}", gen_elem(d, r), gen_matrix(r).replace('[', ":[")),
         13 => format!("{}=1 {}=2 > 2 1", r.pick(&GROUPS), r.pick(&GROUPS)),
-        14 => format!("{}, {} > {}, {}", gen_segment(d, r), gen_segment(d, r), gen_matrix(r), gen_matrix(r)),
+        14 => {
+            if r.chance(1, 2) {
+                gen_alpha_sequence(r)
+            } else {
+                format!("{}, {} > {}, {}", gen_segment(d, r), gen_segment(d, r), gen_matrix(r), gen_matrix(r))
+            }
+        }
         _ => format!("[] > {}", gen_matrix(r)),
     }
 }
@@ -253,8 +300,8 @@ pub const ALIAS_FROM: [&str; 10] = [
     "a > *",
     "ŋ > ng",
     "j > y",
-    "x > kh",
-    "$ > *",
+    "C:[+hi, -bk] => +@{acute}",
+    "C => +@{macron}",
 ];
 
 pub fn gen_aliases(r: &mut Rng) -> (Vec<String>, Vec<String>) {
